@@ -1573,7 +1573,7 @@ def c15_history(rng):
                 t = load_text(depth + 1).replace('\\', '\\\\').replace('"', '\\"')
                 # the second argument names the source: a string makes (and enters) a module of that name, a symbol such as
                 # stdin evaluates the text in the module that is current
-                inner.append(f'(load-all "{t}" "inner{depth}")' if rng.random() < 0.7 else f"(load-all \"{t}\" 'stdin)")
+                inner.append(f'(load-all "{t}" "{rng.choice([f"inner{depth}", f"inner{depth}", "ma", "mb"])}")' if rng.random() < 0.7 else f"(load-all \"{t}\" 'stdin)")
                 inner.append("(output (print (get-current-module)))")
             else: inner.append(f"(add 1 {rng.randint(0, 5)})")
         # a failure at a chosen form, by a chosen cause — or none
@@ -1634,13 +1634,25 @@ def c15_module_sequence(rng):
                 lines += l2
                 forms.append("(output (print (get-current-module)))")
                 lines.append(module)
-            else:
+            elif k < 0.95:
                 # a string source: a fresh module, then back
                 counter[0] += 1
                 sub = f'sub{counter[0]}'
                 f2, l2 = body(sub, {}, depth + 1)
                 forms.append(f"(load-all \"{esc(' '.join(f2))}\" \"{sub}\")")
                 lines += l2
+                forms.append("(output (print (get-current-module)))")
+                lines.append(module)
+            else:
+                # a string source that is the name of the module that is current: the load makes and enters a FRESH module of
+                # that name (define_module replaces), and "the module that was current before" is found again by name, so
+                # what is current afterwards is the new module with the definitions the load made
+                fresh = {}
+                f2, l2 = body(module, fresh, depth + 1)
+                forms.append(f"(load-all \"{esc(' '.join(f2))}\" \"{module}\")")
+                lines += l2
+                defined.clear()
+                defined.update(fresh)
                 forms.append("(output (print (get-current-module)))")
                 lines.append(module)
         return forms, lines
